@@ -5948,7 +5948,9 @@ class ConcreteEval:
 
     def iterate(self, v, node=None):
         """a Python iterator over a value of the interpreter"""
-        if isinstance(v, (CObj, CVal, CHandle, CLoop, CModule, CClosure, CMethod, _CPrim)):
+        if isinstance(v, (CObj, CVal)):
+            raise CUnsupported("iteration over %r" % (v,))
+        if isinstance(v, (CHandle, CLoop, CModule, CClosure, CMethod, _CPrim)):
             raise CRaise(TypeError("%r is not iterable" % (v,)), node)
         try:
             it = iter(v)
@@ -6015,7 +6017,9 @@ class ConcreteEval:
         return self._py(lambda: f(v), e)
 
     def truth(self, v, node=None):
-        if isinstance(v, (CObj, CVal, CHandle, CLoop, CClosure, CMethod, _CPrim, CModule)):
+        if isinstance(v, CVal):
+            raise CUnsupported("truth of a stored value")
+        if isinstance(v, (CObj, CHandle, CLoop, CClosure, CMethod, _CPrim, CModule)):
             if isinstance(v, CObj) and (self.prog.lookup_method(v.cls.qn, "__bool__") or self.prog.lookup_method(v.cls.qn, "__len__")):
                 raise CUnsupported("truth of an instance with __bool__/__len__")
             return True
@@ -6045,9 +6049,10 @@ class ConcreteEval:
         return self._py(lambda: f(a, b), e)
 
     def _plain(self, *vs):
+        """operators other than identity on an instance of the program or on an (opaque) stored value are not modelled"""
         for v in vs:
-            if isinstance(v, CObj):
-                raise CUnsupported("operator on an instance of the program")
+            if isinstance(v, (CObj, CVal)):
+                raise CUnsupported("operator on an instance of the program / a stored value")
 
     def ev_Compare(self, e, scope):
         a = self.ev(e.left, scope)
@@ -6066,7 +6071,9 @@ class ConcreteEval:
         v = self.ev(e.value, scope)
         k = self.ev(e.slice, scope)
         self._plain(v)
-        if isinstance(v, (CVal, CHandle, CLoop, CModule, CClosure, CMethod, _CPrim)):
+        if isinstance(v, CVal):
+            raise CUnsupported("subscript of a stored value")
+        if isinstance(v, (CHandle, CLoop, CModule, CClosure, CMethod, _CPrim)):
             raise CRaise(TypeError("not subscriptable"), e)
         return self._py(lambda: v[k], e)
 
@@ -6240,8 +6247,10 @@ class ConcreteEval:
             if isinstance(t, ast.Subscript):
                 o = self.ev(t.value, scope)
                 k = self.ev(t.slice, scope)
+                if isinstance(o, (CObj, CVal)):
+                    raise CUnsupported("item deletion on %r" % (o,))
                 if not isinstance(o, (dict, list)):
-                    raise CRaise(TypeError("item deletion on %r" % (o,)), t) if not isinstance(o, CObj) else CUnsupported("item deletion on an instance")
+                    raise CRaise(TypeError("item deletion on %r" % (o,)), t)
                 self._py(lambda: o.__delitem__(k), t)
             elif isinstance(t, ast.Name):
                 sc = scope
